@@ -257,6 +257,65 @@ func (k *runner) sample(src string, names []string, vals []vp.Val, o outcome, wa
 	k.sampleRec = map[string]interface{}{"space": k.space, "case": rc.text(), "reference": exp, "vm": got}
 }
 
+// ---------- repeat-count guard ----------
+//
+// `string * n` allocates n copies.  When n is itself computed by the VM (a
+// sub-expression), a wrong implementation could compute a count of 2^40 where
+// the reference says 3 and take the checker down with it.  So for every `*`
+// node whose right operand is a sub-expression and whose left operand is (by
+// the reference) a string, the count sub-expression is first evaluated ALONE
+// by the VM; only when it matches the reference is the whole tree run.  A
+// mismatch is reported as a failing case of its own.
+
+// repeatGuards returns the `*` nodes of t whose count is computed.
+func repeatGuards(t *node) []*node {
+	if t == nil || t.op == "" {
+		return nil
+	}
+	var g []*node
+	if !t.un && t.op == "*" && t.r.op != "" {
+		g = append(g, t)
+	}
+	g = append(g, repeatGuards(t.l)...)
+	if !t.un {
+		g = append(g, repeatGuards(t.r)...)
+	}
+	return g
+}
+
+// guardsPass runs the guards applicable to vals; exec evaluates one count
+// sub-expression on the VM and returns its source and outcome.
+func (k *runner) guardsPass(guards []*node, vals []vp.Val, names []string, kinds string, exec func(gi int) (string, outcome)) bool {
+	for gi, g := range guards {
+		lv, st := g.l.eval(vals)
+		if st != ok || lv.K != vp.Str {
+			continue
+		}
+		want, st := g.r.eval(vals)
+		if st != ok {
+			continue
+		}
+		src, o := exec(gi)
+		if o.pan == nil && o.err == nil && vp.Match(o.val, want) {
+			k.res.Add("repeat_count_guards_passed", 1)
+			continue
+		}
+		k.res.Add("trees_not_run_after_guard_mismatch", 1)
+		var un []string
+		var uv []vp.Val
+		for i, n := range names {
+			if usesLeaf(g.r, i) && isIdent(n) {
+				un = append(un, n)
+				uv = append(uv, vals[i])
+			}
+		}
+		k.judge("repeat-count:"+src, src, un, uv, kinds, o, want, ok)
+		k.evals-- // the guard is not a case of the enumeration
+		return false
+	}
+	return true
+}
+
 // ---------- work items ----------
 
 type item struct {
@@ -286,6 +345,16 @@ func varTreeItem(space string, t *node, nleaves int, pool []vp.Val) item {
 		idx := make([]int, nleaves)
 		vals := make([]vp.Val, nleaves)
 		names := leafNames[:nleaves]
+		guards := repeatGuards(t)
+		gsrc := make([]string, len(guards))
+		gstmt := make([]ast.Stmt, len(guards))
+		for gi, g := range guards {
+			gsrc[gi] = g.r.src(names)
+			if gstmt[gi], err = parser.ParseSrc(gsrc[gi]); err != nil {
+				k.res.Violate(common.Violation{Class: space + "/" + gsrc[gi] + "/parse", Case: gsrc[gi], Detail: "generated tree does not parse: " + err.Error(), Replay: rcase{Src: gsrc[gi]}})
+				return
+			}
+		}
 		for {
 			for i := range idx {
 				vals[i] = pool[idx[i]]
@@ -297,9 +366,12 @@ func varTreeItem(space string, t *node, nleaves int, pool []vp.Val) item {
 				for i, n := range names {
 					e.Define(n, vals[i].Go())
 				}
-				o := runStmt(e, stmt)
-				k.judge(src, src, names, vals, kindsOf(vals), o, want, st)
-				k.sample(src, names, vals, o, want, st)
+				kinds := kindsOf(vals)
+				if len(guards) == 0 || k.guardsPass(guards, vals, names, kinds, func(gi int) (string, outcome) { return gsrc[gi], runStmt(e, gstmt[gi]) }) {
+					o := runStmt(e, stmt)
+					k.judge(src, src, names, vals, kinds, o, want, st)
+					k.sample(src, names, vals, o, want, st)
+				}
 			}
 			// odometer
 			i := nleaves - 1
@@ -340,6 +412,7 @@ func litTreeItem(space string, t *node, nleaves int, pool []vp.Val, mask []bool)
 		idx := make([]int, nleaves)
 		vals := make([]vp.Val, nleaves)
 		texts := make([]string, nleaves)
+		guards := repeatGuards(t)
 		for {
 			spellable := true
 			for i := range idx {
@@ -366,10 +439,16 @@ func litTreeItem(space string, t *node, nleaves int, pool []vp.Val, mask []bool)
 						vvals = append(vvals, vals[i])
 					}
 				}
-				src := t.src(texts)
-				o := runSrc(e, src)
-				k.judge(tmpl, src, vnames, vvals, kindsOf(vals), o, want, st)
-				k.sample(src, vnames, vvals, o, want, st)
+				kinds := kindsOf(vals)
+				if len(guards) == 0 || k.guardsPass(guards, vals, texts, kinds, func(gi int) (string, outcome) {
+					gs := guards[gi].r.src(texts)
+					return gs, runSrc(e, gs)
+				}) {
+					src := t.src(texts)
+					o := runSrc(e, src)
+					k.judge(tmpl, src, vnames, vvals, kinds, o, want, st)
+					k.sample(src, vnames, vvals, o, want, st)
+				}
 			}
 			i := nleaves - 1
 			for ; i >= 0; i-- {
@@ -397,7 +476,7 @@ func cacheSweepItems() []item {
 		bin("+", L(0), L(1)), bin("+", L(1), L(0)), bin("-", L(0), L(1)), bin("|", L(0), L(1)),
 		bin("*", L(0), L(2)), bin("&", L(0), L(3)), bin("<<", L(0), L(1)), bin(">>", L(0), L(1)),
 		bin("%", L(0), L(6)), un("-", L(4)), un("^", L(5)), bin("-", L(7), L(2)), bin(">>", L(8), L(2)),
-		bin("+", bin("+", L(0), L(1)), L(2)),   // the cached result used as an operand
+		bin("+", bin("+", L(0), L(1)), L(2)),  // the cached result used as an operand
 		bin("==", bin("+", L(0), L(1)), L(0)), // ... and compared
 		bin("+", vpStrLeaf(), bin("+", L(0), L(1))),
 	}
